@@ -1,33 +1,17 @@
 use tiny_skia::*;
-use verif_harness::{c02, f};
 fn main() {
-    let l: Vec<i128> = std::env::args().skip(1).map(|a| a.parse().unwrap()).collect();
-    let cap = match l[0] { 0 => LineCap::Butt, 1 => LineCap::Round, _ => LineCap::Square };
-    let aa = l[1] != 0;
-    let width = l[2] as f32 / 1000.0;
-    let (w, h) = (l[3] as u32, l[4] as u32);
-    let t = Transform::from_row(f(l[6]), f(l[8]), f(l[7]), f(l[9]), f(l[10]), f(l[11]));
-    let path = c02::build_path(&l[12..]).unwrap();
-    let mut paint = Paint::default(); paint.set_color_rgba8(255,255,255,255); paint.anti_alias = aa;
-    let stroke = Stroke { width, line_cap: cap, ..Stroke::default() };
-    let mut a = Pixmap::new(w, h).unwrap();
-    a.stroke_path(&path, &paint, &stroke, t, None);
-    let mut b = Pixmap::new(3 * w, 3 * h).unwrap();
-    b.stroke_path(&path, &paint, &stroke, t.post_translate(w as f32, h as f32), None);
-    let tp = path.clone().transform(t).unwrap();
-    println!("{:?}", tp);
-    for y in 0..h { for x in 0..w {
-        let (pa, pb) = (a.pixel(x, y).unwrap().alpha() as i32, b.pixel(x + w, y + h).unwrap().alpha() as i32);
-        if (pa - pb).abs() >= 64 && x > 2 && y > 2 && x + 3 < w && y + 3 < h {
-            println!("pixel ({},{}) small {} big {}", x, y, pa, pb);
-            for yy in y.saturating_sub(3)..(y + 4).min(h) {
-                let mut s = String::new(); let mut s2 = String::new();
-                for xx in x.saturating_sub(4)..(x + 5).min(w) {
-                    s += &format!("{:3} ", a.pixel(xx, yy).unwrap().alpha());
-                    s2 += &format!("{:3} ", b.pixel(xx + w, yy + h).unwrap().alpha());
-                }
-                println!("{}   | {}", s, s2);
-            }
+    let dst = PremultipliedColorU8::from_rgba(0, 64, 64, 129).unwrap();
+    for cs in [ColorSpace::Linear, ColorSpace::Gamma2] {
+        let mut paint = Paint::default();
+        paint.set_color_rgba8(128, 187, 255, 1);
+        paint.blend_mode = BlendMode::SourceOver;
+        paint.colorspace = cs;
+        for fr in [0.0f32, 0.1, 0.5, 0.9] {
+            paint.anti_alias = true;
+            let mut pm = Pixmap::new(16, 4).unwrap();
+            for p in pm.pixels_mut() { *p = dst; }
+            pm.fill_rect(Rect::from_ltrb(2.0 + fr, 1.0, 12.0 + fr, 3.0).unwrap(), &paint, Transform::identity(), None);
+            println!("{:?} fr {}: edge-left {:?} interior {:?} edge-right {:?}", cs, fr, pm.pixel(2, 1).unwrap(), pm.pixel(5, 1).unwrap(), pm.pixel(12, 1).unwrap());
         }
-    }}
+    }
 }
